@@ -194,7 +194,11 @@ def run(facts, rep, tier):
     recursive = any(n.k == 'call' and strip_targs(n.calleeq or '') == f'{P}::size' for g in sz_scope for n in g.nodes())
     in_lambda = recursive and not any(n.k == 'call' and strip_targs(n.calleeq or '') == f'{P}::size' for n in sz.nodes())
     if in_lambda:
-        rep.inconclusive('PA.3', 'size() of a directory', sz.shortloc(), 'the recursive size() call sits in a closure handed to a std algorithm: the per-child table is not followed')
+        fold = _size_fold(facts, sz, sz_scope)
+        if fold is None: rep.inconclusive('PA.3', 'size() of a directory', sz.shortloc(), 'the recursive size() call sits in a closure handed to a std algorithm: the per-child table is not followed')
+        else:
+            okf, site_, why_, key_ = fold
+            rep.check(okf, 'PA.3', 'size() of a directory: std::accumulate over listChildren() adds join(*this, child).size() for every child, in an accumulator as wide as the result', site_, why_, key=key_, fn=sz.name)
         recursive = False; sz_skip = True
     else: sz_skip = False
     if not recursive and not sz_skip:
@@ -344,6 +348,49 @@ def run(facts, rep, tier):
 
 
 PATH_MAX = 4096        # <linux/limits.h> of the build platform (what FILENAME_MAX expands to in glibc)
+
+
+def _size_fold(facts, sz, scope):
+    """size() of a directory written as  std::accumulate(children.begin(), children.end(), init, [this](total, child) { return total +
+    join(*this, child).size(); }):  (ok, site, why, key), or None when it is not of that form"""
+    strip = lambda x: (strip(x.n('sub')) if x is not None and x.k in ('cast', 'paren', 'materialize', 'bindtemp') and x.n('sub') is not None else x)
+    acc = [n for n in sz.nodes() if n.k == 'call' and strip_targs(n.calleeq or '') == 'std::accumulate' and len(n.ns('args')) == 4]
+    if len(acc) != 1: return None
+    a = acc[0]; first, last, init, lam = a.ns('args')
+    lam = strip(lam)
+    if lam is None or lam.k != 'lambda': return None
+    g = next((h for h in scope if h.d.get('lambda') and h.name == lam.d.get('fn') and h.shortloc().split(':')[:2] == (lam.d.get('fnloc') or '').split(':')[:2]), None) or next((h for h in scope if h.d.get('lambda') and h.name == lam.d.get('fn')), None)
+    if g is None or len(g.d['params']) != 2: return None
+    # the range is the whole of one local that holds listChildren()
+    ends = [strip(first), strip(last)]
+    if not all(e is not None and e.k == 'call' and e.n('object') is not None for e in ends): return None
+    if [e.callee_base() for e in ends] not in (['begin', 'end'], ['cbegin', 'cend']): return None
+    objs = [strip(e.n('object')) for e in ends]
+    if not all(o is not None and o.k == 'ref' for o in objs) or objs[0].decl != objs[1].decl: return None
+    holder = next((v for n in sz.nodes() if n.k == 'decl' for v in n.vars if v['decl'] == objs[0].decl), None)
+    hinit = None
+    for n in sz.nodes():
+        if n.k == 'decl' and any(v['decl'] == objs[0].decl for v in n.vars): hinit = n
+    if hinit is None or not any(x.k == 'call' and strip_targs(x.calleeq or '') == f'{P}::listChildren' for x in hinit.walk()): return None
+    rets = [n for n in g.nodes() if n.k == 'return']
+    if len(rets) != 1: return None
+    e = strip(rets[0].n('value') if rets[0].n('value') is not None else rets[0].n('sub'))
+    if e is None or e.k != 'binop' or e.op != '+': return None
+    l, r = strip(e.n('lhs')), strip(e.n('rhs'))
+    p0, p1 = g.d['params'][0]['decl'], g.d['params'][1]['decl']
+    if r is not None and r.k == 'ref' and r.decl == p0: l, r = r, l
+    if not (l is not None and l.k == 'ref' and l.decl == p0): return None
+    if not (r is not None and r.k == 'call' and strip_targs(r.calleeq or '') == f'{P}::size'): return None
+    j = strip(r.n('object'))
+    if not (j is not None and j.k == 'call' and strip_targs(j.calleeq or '') == f'{P}::join' and len(j.ns('args')) == 2): return None
+    j0, j1 = strip(j.ns('args')[0]), strip(j.ns('args')[1])
+    if not (j0 is not None and j0.k == 'unop' and j0.op == '*' and j0.n('sub') is not None and j0.n('sub').k == 'this' and j1 is not None and j1.k == 'ref' and j1.decl == p1): return None
+    ty = (a.d.get('type') or '').replace('const ', '')
+    narrow = {'int', 'unsigned int', 'short', 'unsigned short', 'char', 'signed char', 'unsigned char', 'bool', 'float'}
+    if ty in narrow:
+        return False, a.shortloc(), f'std::accumulate adds the children\'s sizes in an accumulator of type `{ty}` (the type of its initial value): the total of a directory is truncated / overflows beyond what `{ty}` holds, although size() returns {sz.d.get("ret") or "size_t"}', 'PA.3|dir-accumulator'
+    if ty not in ('unsigned long', 'size_t', 'std::size_t', 'unsigned long long', 'long', 'long long', 'uintmax_t'): return None
+    return True, a.shortloc(), '', 'PA.3|dir'
 
 
 def _eval_with_member(ev, cond, s):
